@@ -34,6 +34,8 @@ def tp_args(tp):
     elif a == 'span':
         args['snapshot'] = 'no_collect'
         args['span'] = 'line' if tp['kind'] == 'line' else 'method'
+    elif a == 'refused_capture':
+        args['stage'] = 'line_capture'
     if tp['kind'] == 'method':
         args['method_name'] = tp['name']
     return args
@@ -97,12 +99,14 @@ def resolve_tps(recipe, rendered):
     return out
 
 
-def install(tps, route):
+def install(tps, route, wire_ids='own'):
     if route == 'response':
         resp = []
         for tp in tps:
             metrics = [Metric(name='m_' + tp['id'], type=MetricType.COUNTER)] if tp['action'] == 'metric' else []
-            resp.append(TracePointConfig(ID=tp['id'], path=tp['path'], line_number=max(tp['line'], 0),
+            # the ID field left out (its wire default is '') or the same for all: each entry is still a tracepoint
+            wid = {'own': tp['id'], 'empty': '', 'same': 'tp'}[wire_ids] if tp['id'] != 'refused' else tp['id']
+            resp.append(TracePointConfig(ID=wid, path=tp['path'], line_number=max(tp['line'], 0),
                                          args=tp_args(tp), watches=[], metrics=metrics))
         return convert_response(resp)
     out = []
@@ -110,6 +114,22 @@ def install(tps, route):
         metrics = [MetricDefinition('m_' + tp['id'], 'counter')] if tp['action'] == 'metric' else []
         out.append(build_trigger(tp['id'], tp['path'], tp['line'], tp_args(tp), [], metrics))
     return out
+
+
+class RefusingPush:
+    """The delivery side refuses the snapshots of one tracepoint (as a push service that no longer takes work does):
+    that tracepoint's deferred snapshot fails to complete, on the event on which other tracepoints may be due."""
+
+    def __init__(self, inner, refused_id):
+        self.inner = inner
+        self.refused_id = refused_id
+        self.refused = 0
+
+    def push_snapshot(self, snapshot):
+        if snapshot.tracepoint.id == self.refused_id:
+            self.refused += 1
+            raise RuntimeError('push refused')
+        self.inner.push_snapshot(snapshot)
 
 
 class Recorders:
@@ -250,6 +270,11 @@ class C03(Prop):
             'prog': progs.program_recipes(),
             'tps': tps,
             'route': st.sampled_from(['triggers', 'response']),
+            # a bystander: a further line tracepoint whose snapshot is deferred to the end of its line and then refused
+            # by the delivery side - what the others do, at the event that completes it, is unchanged
+            'refused_capture': st.one_of(st.none(), st.none(), st.integers(0, 60)),
+            # (route 'response' only) what the ID field of the entries carries
+            'wire_ids': st.sampled_from(['own', 'own', 'own', 'empty', 'same']),
         })
         overlap = fd({
             'mode': st.just('overlap'),
@@ -351,12 +376,21 @@ class C03(Prop):
         rendered = progs.render(recipe['prog'])
         tps = resolve_tps(recipe, rendered)
         rec = Recorders()
+        bystander = []
+        if recipe.get('refused_capture') is not None:
+            bystander = resolve_tps({'prog': recipe['prog'], 'tps': [{'kind': 'line', 'action': 'refused_capture',
+                                                                      'where': ['stmt', recipe['refused_capture']]}]},
+                                    rendered)
+            bystander[0]['id'] = 'refused'
         try:
-            triggers = install(tps, recipe['route'])
+            wire_ids = recipe.get('wire_ids') or 'own'
+            anonymous = wire_ids != 'own' and recipe['route'] == 'response'
+            triggers = install(tps + bystander, recipe['route'], wire_ids)
         except Exception as e:      # noqa
             out.violate('install raised %s' % lab.exc_bucket(e), {'tps': tps})
             return out
-        handler, cfg, _ = lab.make_handler(triggers, plugins=rec.plugins(), push=rec.push)
+        push = RefusingPush(rec.push, 'refused') if bystander else rec.push
+        handler, cfg, _ = lab.make_handler(triggers, plugins=rec.plugins(), push=push)
         mismatches = []
         matched_events = [0]
         nonmatching = [0]
@@ -370,6 +404,10 @@ class C03(Prop):
             exp_tps = expected_at(ev, tps)
             exp = sorted(a for tp in exp_tps for a in actions_of(tp))
             got = sorted(rec.since_mark())
+            if anonymous:
+                # the entries cannot be told apart by id: how many acted, and with which kind of action
+                exp = sorted(k for _, k in exp)
+                got = sorted(k for _, k in got)
             if exp:
                 matched_events[0] += 1
             else:
@@ -389,6 +427,10 @@ class C03(Prop):
             locs.setdefault((tp['path'], tp['line'], tp['name']), []).append(tp)
         if any(len(v) > 1 for v in locs.values()):
             out.cls('shared_location')
+        if anonymous and len(tps) > 1:
+            out.cls('entries_without_own_id')
+        if bystander and push.refused:
+            out.cls('refused_deferred_snapshot')
         if any(tp['kind'] == 'method' for tp in tps):
             out.cls('method_tp')
         fired_ids = set()
@@ -414,13 +456,18 @@ class C03(Prop):
         if ip.agent_raised:
             out.violate('agent raised into the program: %s' % ip.agent_raised[0][1], {'tps': tps})
         for ev, exp, got in mismatches[:1]:
-            missing = [a for a in exp if a not in got]
-            extra = [a for a in got if a not in exp]
+            missing, extra = list(exp), []       # as multisets (entries without an id of their own repeat)
+            for a in got:
+                if a in missing:
+                    missing.remove(a)
+                else:
+                    extra.append(a)
+            kind_of = lambda a: a if isinstance(a, str) else a[1]      # noqa: E731
             errs = sorted(set(lab.LOGS.errors()))
             if missing and not extra:
-                sig = 'due action missing (%s) [agent log: %s]' % (missing[0][1], ','.join(errs)[:120])
+                sig = 'due action missing (%s) [agent log: %s]' % (kind_of(missing[0]), ','.join(errs)[:120])
             elif extra and not missing:
-                sig = 'action at non-matching event (%s on %s event)' % (extra[0][1], ev.event)
+                sig = 'action at non-matching event (%s on %s event)' % (kind_of(extra[0]), ev.event)
             else:
                 sig = 'wrong actions at event'
             out.violate(sig, {'event': [ev.thread, ev.event, ev.base, ev.line, ev.func], 'expected': exp, 'got': got,
